@@ -4,8 +4,8 @@
    (reactant-only, product-only, common atoms) as explicit inputs; orders_ok says they are permutations of the sets,
    so every theorem below holds for EVERY iteration order CPython may choose. *)
 From Coq Require Import ZArith List String Bool Permutation.
-From Model Require Import PyBase Graph Compose RxnSmiles.
-From Proofs Require Import ComposeProofs RxnComposeProofs RxnSmilesProofs.
+From Model Require Import PyBase Graph Morgan Compose RxnSmiles CgrMorgan.
+From Proofs Require Import ComposeProofs RxnComposeProofs RxnSmilesProofs RxnCxProofs CgrMorganProofs.
 Import ListNotations.
 Open Scope Z_scope.
 
@@ -166,6 +166,44 @@ Theorem C15_dynamic_lists_spec : forall h, wf_cgr h = true ->
 Proof. exact dynamic_lists_spec. Qed.
 Print Assumptions C15_dynamic_lists_spec.
 
+(* ---- Morgan order of a condensed graph (the weights CGRSmiles._smiles_order hands to the SMILES traversal) ---- *)
+(* cgr_atoms_order h c is Morgan.atoms_order on a CGRContainer: _morgan (Model.Morgan, C01) applied to the hashes of the
+   dynamic atoms and dynamic bonds; h is the tuple hash, the theorems hold for ANY h.  Renumbering a well-formed condensed
+   graph by a map injective on its atoms renumbers the result and changes nothing else *)
+Theorem C15_cgr_atoms_order_equivariant : forall h c s, wf_cgr c = true -> Morgan.inj_on (keys (c_atoms c)) s ->
+  cgr_atoms_order h (rename_cgr s c) = ren_res s (cgr_atoms_order h c).
+Proof. exact cgr_atoms_order_equivariant. Qed.
+Print Assumptions C15_cgr_atoms_order_equivariant.
+
+Theorem C15_cgr_atoms_order_total : forall h c, wf_cgr c = true ->
+  exists l, cgr_atoms_order h c = Ok l /\ Permutation (keys l) (keys (c_atoms c)).
+Proof. exact cgr_atoms_order_total. Qed.
+Print Assumptions C15_cgr_atoms_order_total.
+
+(* consistent renumbering of BOTH SIDES of a reaction: the Morgan order of the condensed graph is the renumbered one *)
+Theorem C15_compose_atoms_order_equivariant : forall h s r p o1 o2 o3,
+  wf_mol r = true -> wf_mol p = true -> orders_ok r p o1 o2 o3 -> Compose.inj_on (ids r ++ ids p) s ->
+  order_of h (compose_ord (map s o1) (map s o2) (map s o3) (rename s r) (rename s p)) =
+  ren_res s (order_of h (compose_ord o1 o2 o3 r p)).
+Proof. exact compose_atoms_order_equivariant. Qed.
+Print Assumptions C15_compose_atoms_order_equivariant.
+
+(* ... atom by atom: atom s n of the renumbered reaction has the rank of atom n *)
+Theorem C15_compose_rank_equivariant : forall h s r p o1 o2 o3 c,
+  wf_mol r = true -> wf_mol p = true -> orders_ok r p o1 o2 o3 -> Compose.inj_on (ids r ++ ids p) s ->
+  compose_ord o1 o2 o3 r p = Ok c ->
+  forall n, In n (keys (c_atoms c)) ->
+  rank_of (order_of h (compose_ord (map s o1) (map s o2) (map s o3) (rename s r) (rename s p))) (s n) = rank_of (cgr_atoms_order h c) n.
+Proof. exact compose_rank_equivariant. Qed.
+Print Assumptions C15_compose_rank_equivariant.
+
+Theorem C15_cgr_atoms_order_example :
+  exists c, compose example_r example_p = Ok c /\
+    z_cgr_atoms_order c = Ok [(3, 1); (2, 2); (1, 3)] /\
+    z_cgr_atoms_order (rename_cgr (fun n => 10 - n) c) = Ok [(7, 1); (8, 2); (9, 3)].
+Proof. exact cgr_atoms_order_example. Qed.
+Print Assumptions C15_cgr_atoms_order_example.
+
 (* ---- reaction string ---- *)
 (* any permutation of the molecules inside the roles gives the same string.  ncomp_det l: two molecules of l with the
    same SMILES have the same number of components (true of every molecule the writer produces, see
@@ -231,6 +269,66 @@ Theorem C15_rxn_split_roundtrip_example :
     Ok (Some (["CCO"%string; "[Na+].[Cl-]"%string], [], ["O"%string; "[K+].[OH-]"%string])).
 Proof. exact rxn_split_roundtrip_example. Qed.
 Print Assumptions C15_rxn_split_roundtrip_example.
+
+(* ---- the textual CXSMILES block and the string-level round trip ---- *)
+(* cx_token r c = "|" + ",".join(cx) + "|" as __format__ prints it for radical indices r and fragment groups c.
+   parse_cx is the reader's CX parser: the two regular expressions cx_radicals / cx_fragments as explicit matchers,
+   int() of the digit runs, sorted() of each group and the two collision tests.  For ALL index lists (non-negative; groups of
+   at least two numbers, as the regex demands) the printed block is parsed back to what smiles() makes of these indices *)
+Theorem C15_parse_cx_print : forall r c rest, nonneg r -> Forall group_ok c -> r <> [] \/ c <> [] ->
+  parse_cx (cx_token r c :: rest) =
+  ((if nodup_z r then r else []),
+   match c with
+   | [] => None
+   | _ => if nodup_z (List.concat (map zsort c)) then Some (map zsort c) else None
+   end).
+Proof. exact parse_cx_print. Qed.
+Print Assumptions C15_parse_cx_print.
+
+(* ... hence unchanged for lists without collisions and with sorted groups (everything the writer prints) *)
+Theorem C15_parse_cx_print_exact : forall r c rest, nonneg r -> Forall group_ok c -> r <> [] \/ c <> [] ->
+  nodup_z r = true -> Forall sorted_z c -> nodup_z (List.concat c) = true ->
+  parse_cx (cx_token r c :: rest) = (r, match c with [] => None | c' => Some c' end).
+Proof. exact parse_cx_print_exact. Qed.
+Print Assumptions C15_parse_cx_print_exact.
+
+(* decimal printing and parsing: str(n) followed by a non-digit is read back by [0-9]+ and int() *)
+Theorem C15_p_num_dec : forall n r, 0 <= n -> sd r = false -> p_num (dec n ++ r) = Some (n, r).
+Proof. exact p_num_dec. Qed.
+Print Assumptions C15_p_num_dec.
+
+Theorem C15_parse_cx_print_example :
+  parse_cx [cx_token [0; 12; 7] [[3; 4]; [10; 11; 12]]] = ([0; 12; 7], Some [[3; 4]; [10; 11; 12]]) /\
+  cx_token [0; 12; 7] [[3; 4]; [10; 11; 12]] = "|^1:0,12,7,f:3.4,10.11.12|"%string.
+Proof. exact parse_cx_print_example. Qed.
+Print Assumptions C15_parse_cx_print_example.
+
+(* writer text -> reader, for every reaction with at least one molecule: the whole line format(reaction, '' or '!c') --
+   signature, blank, CX block -- goes through str.split(), the CX parser, the '>' / '.' splitting, the f: contraction and
+   the radical range test, and hands the written molecule strings, role by role and in written order, to the molecule
+   parser; the radical marks are the written atom positions.  Hypotheses on the molecule-level writer / parser (C01-C03, not
+   modelled): fmol_ok (one non-empty '.'-piece per component, no '>'), fmol_nows (no white space in a SMILES), atoms_cover
+   (the parser returns at least as many atoms for a molecule string as the writer listed radical flags for it) *)
+Theorem C15_rxn_roundtrip : forall natoms ignore keep_order rs gs ps,
+  Forall fmol_ok rs -> Forall fmol_ok gs -> Forall fmol_ok ps ->
+  Forall fmol_nows rs -> Forall fmol_nows gs -> Forall fmol_nows ps ->
+  Forall (atoms_cover natoms) rs -> Forall (atoms_cover natoms) gs -> Forall (atoms_cover natoms) ps ->
+  (rs ++ gs ++ ps)%list <> [] ->
+  read_rxn natoms ignore (rxn_format keep_order false rs gs ps) =
+  Ok (Some (map f_smi (prep keep_order rs), map f_smi (prep keep_order gs), map f_smi (prep keep_order ps)),
+      w_radicals (rxn_write keep_order rs gs ps)).
+Proof. exact rxn_roundtrip. Qed.
+Print Assumptions C15_rxn_roundtrip.
+
+Theorem C15_rxn_roundtrip_example :
+  let natoms := fun x => Z.of_nat (String.length x) in
+  let a := mkF "CCO" 1 [false; false; false] in let c := mkF "[CH3]" 1 [true] in
+  Forall fmol_ok [a; nacl; c] /\ Forall fmol_nows [a; nacl; c] /\ Forall (atoms_cover natoms) [a; nacl; c] /\
+  rxn_format false false [a; nacl; c] [] [a] = "CCO.[CH3].[Na+].[Cl-]>>CCO |^1:3,f:2.3|"%string /\
+  read_rxn natoms true "CCO.[CH3].[Na+].[Cl-]>>CCO |^1:3,f:2.3|" =
+    Ok (Some (["CCO"%string; "[CH3]"%string; "[Na+].[Cl-]"%string], [], ["CCO"%string]), [3]).
+Proof. exact rxn_roundtrip_example. Qed.
+Print Assumptions C15_rxn_roundtrip_example.
 
 (* ---- CGR SMILES tokens (finite, complete sweeps) ---- *)
 (* the bond token shows '>' exactly for a dynamic bond and determines (order, p_order) *)
